@@ -1274,7 +1274,7 @@ namespace
             return {};
         }
 
-        auto index = params[0].data<d_scalar, int>();
+        auto index = sqf::runtime::util::round_to<int>(params[0].data<d_scalar, float>()); // (rounded, as select does)
         if (index < 0)
         {
             runtime.__logmsg(err::NegativeIndex(runtime.context_active().current_frame().diag_info_from_position()));
@@ -1373,7 +1373,7 @@ namespace
     value deleteat_array_scalar(runtime& runtime, value::cref left, value::cref right)
     {
         auto l = left.data<d_array>();
-        auto index = right.data<d_scalar, int>();
+        auto index = sqf::runtime::util::round_to<int>(right.data<d_scalar, float>()); // (rounded, as select does)
         if (index >= static_cast<int>(l->size()))
         {
             runtime.__logmsg(err::IndexOutOfRangeWeak(runtime.context_active().current_frame().diag_info_from_position(), l->size(), index));
